@@ -11,6 +11,14 @@ using namespace wm;
 
 struct Dom : CompositeBase
 {
+    // two more prior states: crates of the same name under different parents (a move of one under the other's parent fails at the
+    // schema's UNIQUE (title, parent) constraint - 2.x - in the LAST statement of the re-linking sequence)
+    static std::vector<std::string> seeds(eng::engine_schema s)
+    {
+        auto v = CompositeBase::seeds(s);
+        v.push_back("create_root(|x);create_sub(0|y);create_root(|y);create_root(|z);create_track(2);add_track(2,0)");
+        return v;
+    }
     static bool step(World& w, Model& m, const Op& op, const Outcome& r, Agg& a, const std::string&, bool checking)
     {
         advance(m, op, r, w);
@@ -48,6 +56,25 @@ struct Dom : CompositeBase
         for (int c : lc)
             for (int t : lt)
                 if (!m.mem.count({c, t})) { ops.push_back(Op{"add_track_id", {c, t}, {}}); break; }
+        // calls that a constraint of the schema may refuse by itself (names and paths that are already taken): whether they are
+        // refused is open (1.x accepts duplicate names); if refused, that is a failing statement without any injection
+        auto name_of = [&](int c) { try { return w.crates.at((size_t)c).name(); } catch (...) { return std::string(); } };
+        for (int c : lc)
+            for (int d : lc)
+            {
+                if (c == d) continue;
+                const std::string nd = name_of(d);
+                if (nd.empty()) continue;
+                if (m.c[c].parent == m.c[d].parent) ops.push_back(Op{"set_name", {c}, {nd}});                                   // rename onto a sibling
+                else if (name_of(c) == nd && d != m.c[c].parent && m.c[d].parent != c && (m.c[d].parent < 0 || !m.below(m.c[d].parent, c)))
+                    ops.push_back(Op{"set_parent", {c, m.c[d].parent}, {}});                                                  // move next to a namesake
+                if (m.c[d].parent < 0) ops.push_back(Op{"create_root", {}, {nd}});
+                else ops.push_back(Op{"create_sub", {m.c[d].parent}, {nd}});
+            }
+        for (int t : lt)
+            for (int u : lt)
+                if (t != u) { ops.push_back(Op{"update_tag", {t, 3, u}, {}}); ops.push_back(Op{"update_tag", {t, 1, u}, {}}); }
+        for (int u : lt) ops.push_back(Op{"create_track_tag", {2, u}, {}});
         return ops;
     }
     static std::string label_of(const Op& op)
@@ -76,10 +103,24 @@ struct Dom : CompositeBase
                 r0 = w.apply(op);
                 W = seam::sql_ctl.execs;
             }
+            const bool autocommit0 = sqlite3_get_autocommit(w.handle) != 0;
+            if (!autocommit0) { try { w.exec("ROLLBACK"); } catch (...) {} }
             d_ok = w.dump();
             w.restore(img);
             if (getenv("VX_C14_TRACE")) { printf("  op %s W=%ld\n", op.str().c_str(), W); fflush(stdout); }
-            if (!r0.ok) { a.count("ops_rejected_without_fault"); continue; }
+            if (!r0.ok)
+            {
+                // refused without any injected fault (a precondition test, or a statement that failed at a constraint by itself):
+                // the same demands - reported by a std::exception, nothing changed, no transaction left open
+                a.count("ops_rejected_without_fault");
+                a.count("evaluations");
+                bool fine = true;
+                if (!r0.std_ex) { fine = false; viol("non_std_exception", "refused without a fault, threw " + r0.ex_type); }
+                if (!autocommit0) { fine = false; viol("transaction_left_open", "refused without a fault (" + r0.ex_type + "): the connection is still inside a transaction"); }
+                if (d_ok != d0) { fine = false; viol("partial_update", "refused without a fault (" + r0.ex_type + ": " + trunc(r0.what, 80) + ") but the database changed"); }
+                if (fine) { a.count("validated"); a.count("natural_failures_checked"); if (W > 1) a.count("natural_failures_after_first_statement"); }
+                continue;
+            }
             a.count("operations");
             a.count("statements", W);
             for (long k = 0; k < W; ++k)
